@@ -33,6 +33,9 @@ Section P.
   Notation open_pres := (open_pres frepr loads_b).
   Notation handle_sp := (handle_sp frepr loads_b).
   Notation cached_by_id := (cached_by_id frepr loads_s).
+  Notation op_upd_id := (op_upd_id frepr loads_b).
+  Notation handle_sp_rep := (handle_sp_rep frepr loads_b).
+  Notation open_sp_rep := (open_sp_rep frepr loads_b).
   Notation cached_all := (cached_all frepr loads_s).
 
   (* ================================================================ A. soundness of the caches *)
@@ -231,6 +234,85 @@ Section P.
   Qed.
 
   (* ---- update_cache *)
+  (* job.statepoint on a handle (id, _cached_statepoint): only a validated load reaches the session *)
+  Lemma handle_sp_sound : forall f s h s' r,
+    sound (s_cache s) -> handle_sp f s h = (s', r) -> sound (s_cache s').
+  Proof.
+    intros f s h s' r H E. unfold Cache.handle_sp in E. destruct (snd h) as [x|].
+    - inversion E; subst; auto.
+    - destruct (sp_load_view f (fst h)) as [[d v]|] eqn:Ev; inversion E; subst; auto.
+      apply sound_reg; auto. eapply sp_load_view_valid; eauto.
+  Qed.
+
+  Theorem inv_upd_id : forall f s i upd f' s' r, Inv f s -> op_upd_id f s i upd = (f', s', r) -> Inv f' s'.
+  Proof.
+    intros f s i upd f' s' r H E. unfold Cache.op_upd_id in E.
+    destruct (Cache.open_id f s i) as [s1 [h|e]] eqn:Eo.
+    - assert (H1 : sound (s_cache s1)).
+      { unfold Cache.open_id in Eo. pose proof (ensure_read_sound f s H) as H1.
+        destruct (alookup i (s_cache (ensure_read f s))); [inversion Eo; subst; auto|].
+        destruct (Cache.resolve_id f i); inversion Eo; subst; auto. }
+      destruct (handle_sp f s1 h) as [s2 [sp|e]] eqn:Eh.
+      + pose proof (handle_sp_sound _ _ _ _ _ H1 Eh) as H2.
+        destruct sp; try (inversion E; subst; split; [exact H2|exact (proj2 H)]).
+        destruct upd; try (inversion E; subst; split; [exact H2|exact (proj2 H)]).
+        eapply inv_rekey_core; [exact (proj2 H)|exact H2|exact E].
+      + pose proof (handle_sp_sound _ _ _ _ _ H1 Eh) as H2. inversion E; subst. split; [exact H2|exact (proj2 H)].
+    - assert (H1 : sound (s_cache s1)).
+      { unfold Cache.open_id in Eo. pose proof (ensure_read_sound f s H) as H1.
+        destruct (alookup i (s_cache (ensure_read f s))); [inversion Eo|].
+        destruct (Cache.resolve_id f i); inversion Eo; subst; auto. }
+      inversion E; subst. split; [exact H1|exact (proj2 H)].
+  Qed.
+
+  Theorem inv_foreign_init : forall f s sp f' s' r, Inv f s -> op_init f fresh sp = (f', s', r) -> Inv f' s.
+  Proof.
+    intros f s sp f' s' r H E. split; [exact (proj1 H)|].
+    assert (H0 : Inv f fresh) by (split; [apply sound_nil|exact (proj2 H)]).
+    exact (proj2 (inv_init _ _ _ _ _ _ H0 E)).
+  Qed.
+
+  (* repeated access through one handle: every state point it ever shows hashes to the handle's id *)
+  Lemma handle_sp_rep_ok : forall n f s h s' l,
+    (forall x, snd h = Some x -> cid x = fst h) ->
+    handle_sp_rep n f s h = (s', l) -> forall sp, In (Ok sp) l -> cid sp = fst h.
+  Proof.
+    induction n as [|n IH]; intros f s h s' l Hh E sp Hin; simpl in E.
+    - inversion E; subst. contradiction.
+    - destruct (handle_sp f s h) as [s1 r] eqn:Eh.
+      destruct (handle_sp_rep n f s1 (match r with Ok v => (fst h, Some v) | Err _ => h end)) as [s2 l2] eqn:Er.
+      inversion E; subst. clear E.
+      assert (Hr : forall v, r = Ok v -> cid v = fst h).
+      { intros v Hv. subst r. unfold Cache.handle_sp in Eh. destruct (snd h) as [x|] eqn:Es.
+        - destruct (is_objb x); inversion Eh; subst. apply Hh; reflexivity.
+        - destruct (sp_load_view f (fst h)) as [[d w]|] eqn:Ev; inversion Eh; subst.
+          unfold Cache.sp_load_view in Ev. destruct (sp_load f (fst h)) as [d'|] eqn:Ed; [|discriminate].
+          destruct (sp_load_valid f (fst h) d' Ed) as [Hid Hnn].
+          destruct d'; simpl in Ev; inversion Ev; subst; auto. exfalso. apply Hnn. reflexivity. }
+      destruct Hin as [Hin|Hin].
+      + apply Hr. exact Hin.
+      + destruct r as [v|e].
+        * eapply (IH f s1 (fst h, Some v)); [|exact Er|exact Hin]. simpl. intros x Hx. inversion Hx; subst. apply Hr. reflexivity.
+        * eapply (IH f s1 h); [exact Hh|exact Er|exact Hin].
+  Qed.
+
+  Theorem open_sp_rep_never_wrong : forall n f s i s' l sp,
+    Inv f s -> open_sp_rep n f s i = (s', l) -> In (Ok sp) l ->
+    exists m, (m = i \/ resolve_id f i = Ok m) /\ cid sp = m.
+  Proof.
+    intros n f s i s' l sp H E Hin. unfold Cache.open_sp_rep, Cache.open_id in E.
+    pose proof (ensure_read_sound f s H) as H1.
+    destruct (alookup i (s_cache (ensure_read f s))) as [x|] eqn:El.
+    - exists i. split; auto.
+      apply (handle_sp_rep_ok n f (ensure_read f s) (i, Some x) s' l); auto.
+      simpl. intros y Hy. inversion Hy; subst. apply alookup_In in El. apply H1 in El. exact El.
+    - destruct (resolve_id f i) as [m|e] eqn:Er.
+      + exists m. split; auto.
+        apply (handle_sp_rep_ok n f (ensure_read f s) (m, alookup m (s_cache (ensure_read f s))) s' l); auto.
+        simpl. intros y Hy. apply alookup_In in Hy. apply H1 in Hy. exact Hy.
+      + inversion E; subst. apply repeat_spec in Hin. discriminate.
+  Qed.
+
   Lemma add_from_ws_sound : forall f ids c c', sound c -> add_from_ws f c ids = Ok c' -> sound c'.
   Proof.
     induction ids as [|i r IH]; simpl; intros c c' Hc H; [inversion H; subst; auto|].
@@ -1215,6 +1297,13 @@ Section HOLDS.
     - destruct (op_rekey_id fr lb f s (cid8 c old) new) as [[f1 s1] r1] eqn:E1. inversion E; subst. eapply inv_rekey_id; eauto.
     - inversion E; subst. eapply Inv_ws_only; [exact (proj2 H)|apply plant_ws_only|exact (proj1 H)].
     - inversion E; subst. exact H.
+    - destruct (op_upd_id fr lb f s (cid8 c old) upd) as [[f1 s1] r1] eqn:E1. inversion E; subst. eapply inv_upd_id; eauto.
+    - destruct (op_init fr lb f fresh sp) as [[f1 s1] r1] eqn:E1.
+      pose proof (inv_init fr lb _ _ _ _ _ _ (inv_restart fr f s H) E1) as H1.
+      inversion E; subst. split; [exact (proj1 H)|exact (proj2 H1)].
+    - destruct (op_remove fr f fresh sp) as [[f1 s1] r1] eqn:E1.
+      pose proof (inv_remove fr _ _ _ _ _ _ (inv_restart fr f s H) E1) as H1.
+      inversion E; subst. split; [exact (proj1 H)|exact (proj2 H1)].
   Qed.
 
   Lemma cache_le_sound : forall x y, sound fr x -> cache_le y x = true -> sound_b c y = true.
